@@ -1010,11 +1010,28 @@ def _encode(it, s, *a, **k):
     it.ex.assume(bytes_range(r))
     if enc in ("utf-8", "utf8", "ascii", "latin-1"):
         it.ex.assume(z3.Implies(z3.InRe(s.t, z3.Star(z3.Range(chr(0), chr(127)))), r == s.t))
+    if enc == "utf-8" and err in ("strict", "surrogatepass"):
+        # injective (surrogatepass: on all of str; strict: where it does not raise): stated through a left inverse,
+        # so f(a) == f(b) gives a == b by congruence; the empty string is the only one with an empty encoding
+        it.ex.note("assumed", f"str.encode('utf-8', '{err}') is injective and maps only '' to b''")
+        it.ex.assume(uf(f"inv_encode_{enc}_{err}", _S, _S)(r) == s.t)
+        it.ex.assume((z3.Length(r) == 0) == (z3.Length(s.t) == 0))
     return SBytes(r)
 
 
 def bytes_range(t):
     return z3.InRe(t, z3.Star(z3.Range(chr(0), chr(255))))
+
+
+def _o_inv_utf8_surrogatepass(b):
+    try:
+        return bytes(ord(c) for c in b).decode("utf-8", "surrogatepass")
+    except (UnicodeDecodeError, ValueError):
+        return ""
+
+
+UF_ORACLES["encode_utf-8_surrogatepass"] = lambda s: s.encode("utf-8", "surrogatepass")
+UF_ORACLES["inv_encode_utf-8_surrogatepass"] = _o_inv_utf8_surrogatepass
 
 
 @method(SBytes, "hex")
